@@ -22,7 +22,7 @@ EXPLANATION = (
     "__str__, including through property getters) is assigned on every constructor path of every concrete class "
     "using it or guarded by hasattr, %-formatting of possibly-tuple attributes is tuple-wrapped; (D5) no possibly "
     "unbound local in the expect machinery (guard-correlated definite assignment); (D6) flag_eof is set before "
-    "every raise EOF of the transports; (D7) the entry points hand the loop's outcome back unchanged. NOT decided: "
+    "every raise EOF of the transports; (D7) the entry points hand the loop's outcome back unchanged; (D8) each transport translates the library's 'nothing arrived in time' signals (socket.timeout and, for timeout 0, BlockingIOError) into TIMEOUT. NOT decided: "
     "that a later call after EOF does not block (OS), message wording.")
 TRUSTED = ["Python exception-handler matching order", "sa/ engine (CFG with exception edges, must-dataflow)"]
 ASSUMPTIONS = ["EOF and TIMEOUT are unrelated sibling classes (checked: both derive directly from ExceptionPexpect)"]
@@ -75,6 +75,9 @@ def run(R):
                     ok, p = g.dominated_by(r, sets, skip_labels=())
                     c.check(ok, f, r.ast, 'self.flag_eof = True on every path before this raise EOF',
                             witness='path: ' + g.describe_path(p) if p else None)
+    with R.clause('D8', 'TAB', floor=3, desc='no-data outcomes of every transport surface as TIMEOUT, never as another error') as c:
+        from .c05 import check_nodata
+        check_nodata(c, repo)
     with R.clause('D7', 'FORWARD', floor=5, desc='entry points return / raise exactly what the loop produced') as c:
         check_forwarding(c, repo)
 
@@ -375,6 +378,7 @@ MUTANTS = [
     ('expect_exact-swallow', 'spawnbase', "            from ._async import expect_async\n            return expect_async(exp, timeout)\n        else:\n            return exp.expect_loop(timeout)\n\n    def expect_loop",
      "            from ._async import expect_async\n            return expect_async(exp, timeout)\n        else:\n            try:\n                return exp.expect_loop(timeout)\n            except TIMEOUT:\n                return -1\n\n    def expect_loop", 'D7'),
     ('unbound-end-time', 'expect', "        if timeout is not None:\n            end_time = time.time() + timeout\n\n        try:", "        if timeout:\n            end_time = time.time() + timeout\n\n        try:", 'D5'),
+    ('socket-blockingio-leaks', 'socket_pexpect', "        except (socket.timeout, BlockingIOError):", "        except socket.timeout:", 'D8'),
     ('eof-no-clear-on-raise', 'expect', "        spawn.before = spawn._before.getvalue()\n        spawn._buffer = spawn.buffer_type()\n        spawn._before = spawn.buffer_type()\n        spawn.after = EOF\n        index = self.searcher.eof_index\n        if index >= 0:\n",
      "        spawn.before = spawn._before.getvalue()\n        spawn.after = EOF\n        index = self.searcher.eof_index\n        if index >= 0:\n            spawn._buffer = spawn.buffer_type()\n            spawn._before = spawn.buffer_type()\n", 'D2'),
 ]
